@@ -43,6 +43,8 @@ enum Place {
     MacroInProc,
     /// the item comes after a use of a macro whose body is empty
     AfterEmptyMacro,
+    /// the program single-steps two instructions under the trap flag, switches it off, then reaches the item
+    AfterTrapToggle,
 }
 
 #[derive(Clone)]
@@ -111,6 +113,15 @@ fn template(k: Kind, p: Place) -> Template {
     if p == Place::First {
         code.push(it());
     }
+    if p == Place::AfterTrapToggle {
+        for w in [0x0100i32, 0x0000] {
+            code.push(mov(r16("ax"), imm(w)));
+            code.push(push(r16("ax")));
+            code.push(z(ZeroOp::Popf));
+            code.push(filler2());
+        }
+        code.push(it());
+    }
     if p == Place::AfterEmptyMacro {
         code.push(Item::MacroUse("off".into(), vec!["si".into()]));
         code.push(filler2());
@@ -163,7 +174,7 @@ fn multi(k: Kind) -> Template {
 fn templates() -> Vec<Template> {
     let mut v = Vec::new();
     for k in [Kind::Print, Kind::Int3, Kind::DivErr, Kind::Unsupp] {
-        for p in [Place::First, Place::Middle, Place::Last, Place::InProc, Place::InProcAfterStart, Place::InMacro, Place::InNestedMacro, Place::MacroInProc, Place::AfterEmptyMacro] {
+        for p in [Place::First, Place::Middle, Place::Last, Place::InProc, Place::InProcAfterStart, Place::InMacro, Place::InNestedMacro, Place::MacroInProc, Place::AfterEmptyMacro, Place::AfterTrapToggle] {
             v.push(template(k, p));
         }
     }
@@ -760,6 +771,38 @@ pub fn run(tier: &Tier) -> i32 {
             }
         });
     }
+    // (a'') a program of more than 65 536 instructions: the instructions beyond index 2^16 still have their
+    // own source-map entries, and the messages about them cite their lines (library level and real binary)
+    {
+        let n = 65_600usize;
+        let mut src = String::from("start:\n");
+        for _ in 0..n {
+            src.push_str("inc ax\n");
+        }
+        src.push_str("print reg\ninc bx\nint 3\nprint flags\n");
+        c.add_exec(1);
+        match assemble(&src) {
+            Ok(asm) => {
+                for (idx, line) in [(n, n + 2), (n + 1, n + 3), (n + 2, n + 4), (n + 3, n + 5), (n - 1, n + 1), (65_535, 65_537), (65_536, 65_538)] {
+                    let ok = match asm.source_map.get(&idx) {
+                        Some(pos) => line_col(&src, *pos).0 == line,
+                        None => false,
+                    };
+                    if !ok {
+                        rep.report(Viol { site: "source map / large program".into(), field: "line".into(), vars: vec![("idx".into(), idx as i64)], got_val: None, expected: format!("instruction {} maps into line {}", idx, line), got: format!("{:?}", asm.source_map.get(&idx).map(|p| line_col(&src, *p).0)), case: json!({"program": "start: + 65600 x inc ax + print reg, inc bx, int 3, print flags"}), weight: 0 });
+                        break;
+                    }
+                }
+            }
+            Err(e) => rep.report(Viol { site: "source map / large program".into(), field: "line".into(), vars: vec![], got_val: None, expected: "a program of 65 600 instructions assembles".into(), got: format!("{:?}", e), case: json!({}), weight: 0 }),
+        }
+        let out = run_cli(&src, "n\nn\n", &CliOpts { timeout_ms: 30_000, ..Default::default() });
+        let o = out.out();
+        let want = [format!("Output of line {} : print reg", n + 2), format!("Int 3 at line {}", n + 4), format!("Output of line {} : print flags", n + 5)];
+        if out.abnormal().is_some() || want.iter().any(|w| !o.contains(w.as_str())) {
+            rep.report(Viol { site: "run-time message / large program".into(), field: "line".into(), vars: vec![], got_val: None, expected: format!("{:?}", want), got: clip_text(&out.summary(), 600), case: json!({"program": "start: + 65600 x inc ax + print reg, inc bx, int 3, print flags", "stdin": "n\nn\n"}), weight: 0 });
+        }
+    }
     // (b) messages through the binary, all layouts, plain and -i
     let cli_work: Vec<(usize, Layout, bool)> = (0..ts.len()).flat_map(|i| layouts(true).into_iter().chain(extra_layouts()).flat_map(move |l| [(i, l, false), (i, l, true)])).collect();
     cli_work.par_iter().for_each(|(i, l, interp)| check_messages(rep, c, &st, &ts[*i], l, *interp));
@@ -803,7 +846,7 @@ pub fn run(tier: &Tier) -> i32 {
     }
     let mut cov = Coverage::default();
     cov.exhaustive = true;
-    cov.rule = format!("{} templates = 4 item kinds (print, INT 3, divide error, unsupported AH) x 9 placements (after uses of a macro with an empty body, first / middle / last line, inside a procedure defined before or after start, inside a macro body, inside nested macros, macro used inside a procedure) plus two multi-item programs with loops; layouts = {{no filler, blank lines, comment-only lines, mixed}} x {{trailing comments or not}} x {{final newline or not}} (10 layouts), plus CR LF line ends and the whole program on ONE line without a newline. (a) library level: for every emitted instruction the source-map offset must lie in the line of the instruction (macro output: outermost use line; implied ret: closing brace). (a') for every instruction shape of the syntax.md catalog the source map has exactly one entry per emitted instruction and the instruction after it maps to its own line. (b) every template x every layout through the real binary, plain and with -i (every instruction is then preceded by a step message): line numbers and line texts of all messages are matched. (c) diagnostics: for {} token positions: '@' inserted before the token, the token replaced by ')', the file truncated after the token; plus 12 semantic errors at first / middle / last line and 3 data-side errors in all 10 layouts; the position the real Preprocessor reports is cross-checked against the generator-known token offset, and the binary's message must cite that line, column (0- or 1-based, but the same base everywhere) and line text", ts.len(), "all");
+    cov.rule = format!("{} templates = 4 item kinds (print, INT 3, divide error, unsupported AH) x 10 placements (after the trap flag was switched on and off again, after uses of a macro with an empty body, first / middle / last line, inside a procedure defined before or after start, inside a macro body, inside nested macros, macro used inside a procedure) plus two multi-item programs with loops; layouts = {{no filler, blank lines, comment-only lines, mixed}} x {{trailing comments or not}} x {{final newline or not}} (10 layouts), plus CR LF line ends and the whole program on ONE line without a newline. (a) library level: for every emitted instruction the source-map offset must lie in the line of the instruction (macro output: outermost use line; implied ret: closing brace). (a') for every instruction shape of the syntax.md catalog the source map has exactly one entry per emitted instruction and the instruction after it maps to its own line. (a'') one program of 65 600 instructions: entries and messages beyond index 2^16. (b) every template x every layout through the real binary, plain and with -i (every instruction is then preceded by a step message): line numbers and line texts of all messages are matched. (c) diagnostics: for {} token positions: '@' inserted before the token, the token replaced by ')', the file truncated after the token; plus 12 semantic errors at first / middle / last line and 3 data-side errors in all 10 layouts; the position the real Preprocessor reports is cross-checked against the generator-known token offset, and the binary's message must cite that line, column (0- or 1-based, but the same base everywhere) and line text", ts.len(), "all");
     cov.bounds = json!({"templates": ts.len(), "library_runs": lib_work.len(), "catalog_shapes_with_source_map_in_step": shapes_checked.load(Ordering::Relaxed), "source_map_entries_checked": st.lib_entries.load(Ordering::Relaxed), "message_runs": cli_work.len(), "messages_checked": st.cli_msgs.load(Ordering::Relaxed), "diagnostic_runs": diag.len(), "syntax_diagnostics": total, "reported_exactly_at_corrupted_token": exact, "reported_later_than_corrupted_token": st.diag_later.load(Ordering::Relaxed), "corruptions_leaving_a_valid_program": st.still_valid.load(Ordering::Relaxed), "tier": tier.name()});
     cov.assumptions = common_assumptions();
     cov.assumptions.push("line text in messages is compared modulo the ';' comment and surrounding white space; line numbers exactly; columns 0- or 1-based".into());
